@@ -69,7 +69,14 @@ def run_tuned(rnd, sampler_kind, interrupt=False):
     attrs = {}
     with scratch() as tmp, quiet(), np.errstate(all="ignore"):
         fn = os.path.join(tmp, "c.h5")
-        s.sample(fn, dist, initial_model=q0.copy(), proposals=P, overwrite_existing_file=True, disable_progressbar=True, **kw)
+        try:
+            s.sample(fn, dist, initial_model=q0.copy(), proposals=P, overwrite_existing_file=True, disable_progressbar=True, **kw)
+        except Exception as e:  # an aborting sampler is an observation (C06/C08), not a harness failure
+            desc["raised"] = repr(e)
+            try:
+                s.samples.close()
+            except Exception:
+                pass
         import h5py
 
         with h5py.File(fn, "r") as f:
@@ -113,6 +120,10 @@ def run(tier, seed):
     for i in range(N):
         kind = "RWMH" if i % 2 == 0 else "HMC"
         desc, s, trans, attrs = run_tuned(rnd, kind, interrupt=(i % 5 == 4))
+        if "raised" in desc:
+            st.case(desc, nontrivial=False)
+            st.count("sampler raised (see C06/C08)")
+            continue
         rates = rates_from(trans, kind)
         completed = attrs["columns"]  # thinning 1: one column per completed proposal
         if desc["interrupt_at_misfit_call"] is not None:
